@@ -108,6 +108,9 @@ def _cases(draw):
                     r[k] = g.pick(NUMTEXT) if not k.split("::")[0] in ("image", "audio", "video") else r[k]
     if "settings" in form and g.p("_", 0.5):
         form["settings"]["version"] = g.pick(["2024010101", "7", "3.5"])
+    if "settings" in form and g.p("_", 0.12):
+        # cells that consist of dashes only: data, not a Markdown separator row
+        form["settings"]["form_title"] = g.pick(["-", "--", "---", "- -"])     # ('---' alone: Markdown cannot carry that row)
     if g.p("_", 0.2):
         # columns whose header is a number: in a spreadsheet such a header cell may be typed
         for n, _ in model.walk(form["nodes"]):
